@@ -80,6 +80,10 @@ def run(F, R):
     f2_producer(F, R, M, pubs, dvars)
     # F8: the form chosen (direct chain vs one indirect table) agrees with the capacity test that admitted the
     # submission, so the chain written always fits the descriptors reserved for it (shared with C03.E3)
+    # F10: free-running ring indices only through wrapping arithmetic (a wrong wrap makes stale used entries release chains
+    # that are still outstanding - one descriptor then belongs to two chains); shared with C03.E5
+    from .C03 import counters_rule
+    counters_rule(F, R, 'F10')
     from .C03 import e3_capacity
     for add_id in pubs:
         e3_capacity(F, R, M, add_id, rule='F8', rule1='F8')
